@@ -1,7 +1,8 @@
-(* C11 - Plain indicators are found at any offset with exact span and canonical value.  PARTIAL (see DESIGN.md): what is proved is (1) the validators accept every instance of the indicator grammars (canonical quads, name.TLD), (2) what each decoder reports for a given match list: the match text itself with the documented type and exactly the match span, balanced CreateObject, PE carving for any section table within bounds, (3) soundness and - for assertion-free patterns - completeness of the matcher model w.r.t. the regex language.  (4) OFFSET INDEPENDENCE of the matcher (Regex/LocalityProofs.v): what the matcher reports from a position onwards depends only on the text after that position and on the last lb_width r bytes before it, and shifts with the offset; lb_width is computed on the generated indicator regexes by name (0 or 1 byte).  That the instance itself is selected under neutral embedding (no earlier match swallowing it) is the `quiet' hypothesis of C11_offset_independent_scan, exercised by harness/props/C11.py. *)
+(* C11 - Plain indicators are found at any offset with exact span and canonical value.  PARTIAL (see DESIGN.md): what is proved is (1) the validators accept every instance of the indicator grammars (canonical quads, name.TLD), (2) what each decoder reports for a given match list: the match text itself with the documented type and exactly the match span, balanced CreateObject, PE carving for any section table within bounds, (3) soundness and - for assertion-free patterns - completeness of the matcher model w.r.t. the regex language.  (4) OFFSET INDEPENDENCE of the matcher (Regex/LocalityProofs.v): what the matcher reports from a position onwards depends only on the text after that position and on the last lb_width r bytes before it, and shifts with the offset; lb_width is computed on the generated indicator regexes by name (0 or 1 byte).  (5) INSTANCE SELECTION proved end to end for IPv4 addresses, .exe / .dll names and e-mail addresses (Proofs/RoundTrip3.v); for domains, URLs, paths, CreateObject and PE files it is exercised by harness/props/C11.py. *)
 From MD Require Import Lib.Base Model.Node Model.Dec.Ip Model.Dec.ReLib Model.Dec.UrlSplit Model.Dec.Network Model.Dec.NtPath Model.Dec.PathDec Model.Dec.StrOps Regex.Syntax Regex.Backtrack.
 From MD Require Import Proofs.IpProofs Proofs.UrlSplitProofs Proofs.NetworkProofs Proofs.PathDecProofs Proofs.EscDecProofs Proofs.StrOpsProofs Regex.BacktrackProofs.
 From MD Require Import Regex.LocalityProofs Generated.Regexes.
+From MD Require Import Proofs.RoundTrip Proofs.RoundTrip3.
 
 (* every canonical dotted quad is an instance ... *)
 Theorem C11_quad_accepted : forall s : bytes, canonical_quad s = true <-> (exists a b c d : Z, 0 <= a < 256 /\ 0 <= b < 256 /\ 0 <= c < 256 /\ 0 <= d < 256 /\ s = quad a b c d).
@@ -117,6 +118,34 @@ Print Assumptions C11_lookbehind_WINDOWS_PATH.
 Theorem C11_lookbehind_EXECUTABLE : lb_width RE_filename_EXECUTABLE_RE = 1%nat.
 Proof. exact lbw_EXECUTABLE. Qed.
 Print Assumptions C11_lookbehind_EXECUTABLE.
+
+(* INSTANCE SELECTION, END TO END (Proofs/RoundTrip3.v): every canonical quad (other than the .0 / .255 forms) after a prefix without digits whose last byte does not abut, before a suffix that does not extend it, outside the documented version / section / XML-tag contexts, is reported as network.ip with the text itself as value and exactly its span - at ANY offset *)
+Theorem C11_ip_found : forall pre q suf : bytes, canonical_quad q = true -> endswith q (s2b ".0") = false -> endswith q (s2b ".255") = false -> ip_abut_ok pre = true -> ip_stop suf = true -> ip_context pre (blen pre) = Ok false -> neutral_tail RE_network_IP_RE pre = true -> let data := pre ++ q ++ suf in find_ips data = Hang \/ (exists rest : list node, find_ips data = Ok (Node (s2b "network.ip") q [] (blen pre) (blen pre + blen q) [] :: rest) /\ Forall (fun nd : node => blen pre + blen q <= n_st nd) rest).
+Proof. exact find_ips_roundtrip. Qed.
+Print Assumptions C11_ip_found.
+
+(* the same under the weaker hypothesis that no match of the pattern starts inside the prefix *)
+Theorem C11_ip_found_quiet : forall pre q suf : bytes, canonical_quad q = true -> endswith q (s2b ".0") = false -> endswith q (s2b ".255") = false -> ip_abut_ok pre = true -> ip_stop suf = true -> ip_context pre (blen pre) = Ok false -> let data := pre ++ q ++ suf in quiet default_fuel RE_network_IP_RE (Datatypes.length pre) (start_pos data) -> find_ips data = Hang \/ (exists rest : list node, find_ips data = Ok (Node (s2b "network.ip") q [] (blen pre) (blen pre + blen q) [] :: rest) /\ Forall (fun nd : node => blen pre + blen q <= n_st nd) rest).
+Proof. exact find_ips_roundtrip_quiet. Qed.
+Print Assumptions C11_ip_found_quiet.
+
+Theorem C11_exe_found : forall (pre name : list N) (ext : bytes) (suf : list N), forallb is_word name = true -> name <> [] -> lower ext = s2b "exe" -> sep_free RE_filename_EXECUTABLE_RE pre = true -> word_at suf = false -> (Datatypes.length pre + Datatypes.length name + 64 <= default_fuel)%nat -> let form := file_form name ext in let data := pre ++ form ++ suf in find_executable_name data = Hang \/ (exists rest : list node, find_executable_name data = Ok (Node (s2b "executable.filename") form [] (blen pre) (blen pre + blen form) [] :: rest) /\ Forall (fun nd : node => blen pre + blen form <= n_st nd) rest).
+Proof. exact find_executable_name_roundtrip. Qed.
+Print Assumptions C11_exe_found.
+
+Theorem C11_dll_found : forall (pre name : list N) (ext : bytes) (suf : list N), forallb is_word name = true -> name <> [] -> lower ext = s2b "dll" -> sep_free RE_filename_LIBRARY_RE pre = true -> word_at suf = false -> (Datatypes.length pre + Datatypes.length name + 64 <= default_fuel)%nat -> let form := file_form name ext in let data := pre ++ form ++ suf in find_library data = Hang \/ (exists rest : list node, find_library data = Ok (Node (s2b "executable.library.filename") form [] (blen pre) (blen pre + blen form) [] :: rest) /\ Forall (fun nd : node => blen pre + blen form <= n_st nd) rest).
+Proof. exact find_library_roundtrip. Qed.
+Print Assumptions C11_dll_found.
+
+(* e-mail addresses under a TLD of the regenerated table *)
+Theorem C11_email_found : forall (pre local : list N) (labels : list bytes) (tld suf : bytes), forallb email_local_byte local = true -> (3 <= Datatypes.length local)%nat -> is_word (hd 0%N local) = true -> labels_ok labels = true -> tld_ok tld = true -> mem (upper tld) Tables.TOP_LEVEL_DOMAINS = true -> sep_free RE_network_EMAIL_RE pre = true -> email_stop suf = true -> (Datatypes.length pre + Datatypes.length local + 2 * Datatypes.length (dotted labels) + Datatypes.length tld + 64 <= default_fuel)%nat -> let form := email_form local (dotted labels ++ tld) in let data := pre ++ form ++ suf in find_emails Tables.TOP_LEVEL_DOMAINS data = Hang \/ (exists rest : list node, find_emails Tables.TOP_LEVEL_DOMAINS data = Ok (Node (s2b "network.email") form [] (blen pre) (blen pre + blen form) [] :: rest) /\ Forall (fun nd : node => blen pre + blen form <= n_st nd) rest).
+Proof. exact find_emails_roundtrip_table. Qed.
+Print Assumptions C11_email_found.
+
+(* the documented false-positive heuristics of find_ips look only at the text BEFORE the address *)
+Theorem C11_ip_context_local : forall pre t : list N, ip_context (pre ++ t) (blen pre) = ip_context pre (blen pre).
+Proof. exact ip_context_app. Qed.
+Print Assumptions C11_ip_context_local.
 
 Example C11_example :
   find_ips (L"zz 10.20.30.40 zz") = Ok [Node (L"network.ip") (L"10.20.30.40") [] 3 14 []]
